@@ -64,6 +64,11 @@ CLAIMED = {
         text="Unbounded theorems for every glyph type, record type and glyph-id function: _sort_by_gid returns a permutation sorted by glyph id (strictly, for distinct glyphs) whose parallel array stays paired with its glyphs (the (glyph, record) relation is unchanged); ReorderList sorts and permutes. A table theorem re-checked on every run: the live _REORDER_RULES covers every coverage field of every GSUB/GPOS/GDEF subtable type/format of a hand-written schema (cross-checked against fontTools' otData) with exactly its parallel array. The model is tied to the code by evaluating it in Coq on random inputs, and reorder_glyphs + save + reload is run on synthetic fonts containing all 25 schema entries, comparing schema-driven name-keyed canonical forms of GSUB/GPOS/GDEF, cmap, hmtx, glyf (incl. composites) and COLR v0/v1, and checking raw coverage order.",
         ref="DESIGN.md 8 C11",
     ),
+    "C13": dict(
+        technique="machine-checked proof in Coq (inverse placement, conjugated path transform, projection-point linear gradient = three-point gradient; with C16/C01 theorems for transforms and radial split) + end-to-end comparison of colr_to_svg output against an independent COLR renderer on generated paint graphs",
+        text="Unbounded theorems over any field: the font->viewBox map undoes the source placement; a <path> drawn through V with transform V A V^-1 shows V(A(outline)); the SVG gradient through P0 and the projection point P3 has exactly the colour function of the COLR gradient (P0,P1,P2) for every non-degenerate rotated P2. End to end: COLRv1 fonts are built with fontTools.colorLib from generated paint graphs (all supported paint formats incl. Rotate/Skew/ColrGlyph/composite glyphs that nanoemoji itself never emits, 3 extend modes, 1-3 palettes, several viewBoxes), converted by the real colr_to_svg, and the SVG (rendered by the independent interpreter, mapped back by the placement) is compared layer by layer with the COLR rendering of the graph; COLRv0 likewise; every unsupported format (sweep, Var*, other composite modes) must raise or warn - enumerated.",
+        ref="DESIGN.md 8 C13",
+    ),
     "C14": dict(
         technique="machine-checked proof in Coq (lra/lia theorems about ppem, bitmap metrics with Python's half-even round, int8 nudge, strike runs, offsets) + correspondence by vm_compute",
         text="Unbounded theorems over all integer metrics: ppem within 1/2 of upem*h/em; accepted metrics are representable; the bitmap's vertical centre is within 7/4 px (3/4 without the int8 nudge) of the scaled em-box centre and its edges follow with the explicit size mismatch; horizontal centring within 3/2 px for the repaired code and a machine-checked refutation for the original (finding F8, fixed); strikes are maximal runs of consecutive gids partitioning the sorted glyph list; offsets contiguous with 9+len records. Tied to bitmap_tables by evaluating the model in Coq on the same random metrics/images, and to make_cbdt_table/make_sbix_table by running them on fake fonts with real PNG bytes (image bytes, sizes, run structure).",
